@@ -86,8 +86,6 @@ Qed.
 
 (* ------------------------------------------------------------------ *)
 (* decimal rendering and int() *)
-Definition ascii_digit (c : N) : Prop := 48 <= c <= 57.
-
 Lemma digit_val_ascii : forall X c, ascii_digit c -> digit_val X c = Some (c - 48).
 Proof.
   intros X c [H1 H2]. unfold digit_val.
@@ -678,6 +676,13 @@ Qed.
 Lemma from_name_render : forall t, wf_name t = true -> from_name (render t) = Ok (denote t).
 Proof. intros t W. unfold from_name. apply names_resolve; [exact W|apply upper_render, W]. Qed.
 
+Lemma from_name_base : forall m, mem m member_names = true -> from_name m = Ok (denote (NBase m)).
+Proof. intros m W. exact (from_name_render (NBase m) W). Qed.
+
+Lemma from_name_array_code : forall e, scalar_elt e = true ->
+  from_name (pfx_array ++ e ++ [ch_gt]) = Ok (plain (TMember ty_array) (Some e)).
+Proof. intros e W. exact (from_name_render (NArray e) W). Qed.
+
 Lemma type_code_decimal : forall l p s e,
   type_code (mkD (TMember ty_decimal) l (Some p) (Some s) e) = render (NDecimal p s).
 Proof. intros. reflexivity. Qed.
@@ -722,8 +727,7 @@ Proof.
     + assert (E3 : str_eqb m ty_array = false).
       { apply orb_true_iff in E2. destruct E2 as [E2|E2]; apply str_eqb_eq in E2; subst m; reflexivity. }
       rewrite E3.
-      assert (Wn : wf_name (NBase m) = true) by exact Wm.
-      rewrite (from_name_render (NBase m) Wn). cbn [denote]. rewrite E3.
+      rewrite (from_name_base m Wm). cbn [denote]. rewrite E3.
       apply andb_true_l2 in W as W1. apply andb_true_l2 in W1 as W2. apply andb_true_r2 in W1 as W3.
       apply andb_true_r2 in W as W4.
       destruct p; [discriminate W2|]. destruct s; [discriminate W3|]. destruct e; [discriminate W4|].
@@ -735,20 +739,88 @@ Proof.
         apply str_eqb_eq in E3. subst m.
         destruct e as [e|].
         -- apply str_eqb_eq in Pe. rewrite Pe.
-           assert (Wn : wf_name (NArray e) = true) by exact W4.
-           change (pfx_array ++ e ++ [ch_gt]) with (render (NArray e)).
-           rewrite (from_name_render (NArray e) Wn).
+           rewrite (from_name_array_code e W4).
            eexists. split; [reflexivity|]. repeat split. intros e' H. inversion H. reflexivity.
-        -- assert (Wn : wf_name (NBase ty_array) = true) by exact Wm.
-           change ty_array with (render (NBase ty_array)) at 1.
-           rewrite (from_name_render (NBase ty_array) Wn).
+        -- rewrite (from_name_base ty_array Wm).
            eexists. split; [reflexivity|]. repeat split. intros e' H. discriminate H.
       * apply andb_true_l2 in W as W1. apply andb_true_l2 in W1 as W2. apply andb_true_r2 in W1 as W3.
         apply andb_true_l2 in W2 as W5. apply andb_true_r2 in W2 as W6. apply andb_true_r2 in W as W4.
         destruct l; [discriminate W5|]. destruct p; [discriminate W6|]. destruct s; [discriminate W3|].
         destruct e; [discriminate W4|].
-        assert (Wn : wf_name (NBase m) = true) by exact Wm.
-        change m with (render (NBase m)) at 1.
-        rewrite (from_name_render (NBase m) Wn). cbn [denote]. rewrite E3.
+        rewrite (from_name_base m Wm). cbn [denote]. rewrite E3.
         eexists. split; [reflexivity|]. repeat split. intros e H. discriminate H.
+Qed.
+
+(* ------------------------------------------------------------------ *)
+(* description-level round trip *)
+Lemma name_of_spec : forall d t,
+  wfb d = true -> name_of d = Some t ->
+  (forall n, d_len d = Some n -> digits_ok n = true) ->
+  denote t = d /\ wf_name t = true.
+Proof.
+  intros [ty l p s e] t W Hn Hd. destruct ty as [m| |]; [|discriminate Hn|discriminate Hn].
+  unfold wfb in W. unfold name_of in Hn. cbn [d_ty d_len d_prec d_scale d_elt] in *.
+  apply andb_true_iff in W. destruct W as [Wm W].
+  destruct (str_eqb m ty_decimal) eqn:E1.
+  { apply str_eqb_eq in E1. subst m.
+    destruct l; [discriminate W|]. destruct e; [cbn in W; discriminate W|]. cbn [onone andb] in W.
+    destruct p as [p|], s as [s|]; try discriminate W; inversion Hn; subst t; (split; [reflexivity|]);
+      [exact W|exact Wm]. }
+  destruct (str_eqb m ty_varchar) eqn:E2.
+  { apply str_eqb_eq in E2. subst m. cbn [orb] in W.
+    apply andb_true_l2 in W as W1. apply andb_true_l2 in W1 as W2. apply andb_true_r2 in W1 as W3.
+    apply andb_true_r2 in W as W4.
+    destruct p; [discriminate W2|]. destruct s; [discriminate W3|]. destruct e; [discriminate W4|].
+    destruct l as [n|]; inversion Hn; subst t; (split; [reflexivity|]);
+      [apply Hd; reflexivity|exact Wm]. }
+  destruct (str_eqb m ty_blob) eqn:E3.
+  { apply str_eqb_eq in E3. subst m. cbn [orb] in W.
+    apply andb_true_l2 in W as W1. apply andb_true_l2 in W1 as W2. apply andb_true_r2 in W1 as W3.
+    apply andb_true_r2 in W as W4.
+    destruct p; [discriminate W2|]. destruct s; [discriminate W3|]. destruct e; [discriminate W4|].
+    destruct l as [n|]; inversion Hn; subst t; (split; [reflexivity|]);
+      [apply Hd; reflexivity|exact Wm]. }
+  cbn [orb] in W.
+  destruct (str_eqb m ty_array) eqn:E4;
+  apply andb_true_l2 in W as W1; apply andb_true_l2 in W1 as W2; apply andb_true_r2 in W1 as W3;
+  apply andb_true_l2 in W2 as W5; apply andb_true_r2 in W2 as W6; apply andb_true_r2 in W as W4.
+  - apply str_eqb_eq in E4. subst m.
+    destruct l; [discriminate W5|]. destruct p; [discriminate W6|]. destruct s; [discriminate W3|].
+    destruct e as [e|]; [|discriminate Hn]. inversion Hn. subst t. split; [reflexivity|exact W4].
+  - destruct l; [discriminate W5|]. destruct p; [discriminate W6|]. destruct s; [discriminate W3|].
+    destruct e; [discriminate W4|]. inversion Hn. subst t. cbn [denote wf_name]. rewrite E4.
+    split; [reflexivity|exact Wm].
+Qed.
+
+Lemma descr_roundtrip : forall (X : cext) (up : str -> str) (d : descr) (t : tname) (s : str),
+  wfb d = true -> name_of d = Some t ->
+  (forall n, d_len d = Some n -> digits_ok n = true) ->
+  up s = render t -> from_name_gen X up s = Ok d.
+Proof.
+  intros X up d t s W Hn Hd E. destruct (name_of_spec d t W Hn Hd) as [Ed Wt].
+  rewrite <- Ed. apply names_resolve; assumption.
+Qed.
+
+(* ------------------------------------------------------------------ *)
+(* a column declared with a well-formed name, and its reported type code *)
+Lemma declared_column : forall (X : cext) (up : str -> str) (t : tname) (s : str),
+  wf_name t = true -> up s = render t -> proper (denote t) = true ->
+  exists c d',
+    column_model X up s = ColOk c (type_code c) (desc_prec c) (desc_scale c) (Ok d') /\
+    d_ty c = d_ty (denote t) /\ d_len c = d_len (denote t) /\ d_elt c = d_elt (denote t) /\
+    (forall p, d_prec (denote t) = Some p -> d_prec c = Some p) /\
+    (forall sc, d_scale (denote t) = Some sc -> d_scale c = Some sc) /\
+    d_ty d' = d_ty c /\ d_prec d' = desc_prec c /\ d_scale d' = desc_scale c /\
+    (forall e, d_elt c = Some e -> d_elt d' = Some e).
+Proof.
+  intros X up t s W E P. unfold column_model. rewrite (names_resolve X up t s W E).
+  assert (Wd : wfb (denote t) = true).
+  { pose proof (from_upper_good X (render t)) as G. unfold from_name_gen in *.
+    pose proof (names_resolve X (fun x => x) t (render t) W eq_refl) as R. unfold from_name_gen in R.
+    rewrite R in G. exact G. }
+  destruct (typecode_roundtrip (denote t) Wd P) as [d' [H1 [H2 [H3 [H4 H5]]]]].
+  assert (Hm : exists m, d_ty (denote t) = TMember m).
+  { destruct t; cbn [denote]; try (eexists; reflexivity). destruct (str_eqb m ty_array); eexists; reflexivity. }
+  destruct Hm as [m Hm]. destruct (column_carries (denote t) m Hm) as [C1 [C2 [C3 [C4 [C5 _]]]]].
+  exists (column_of (denote t)), d'. rewrite H1. repeat split; assumption.
 Qed.
